@@ -3,6 +3,7 @@ package engine
 import (
 	"fmt"
 	"sort"
+	"strings"
 	"sync"
 	"sync/atomic"
 	"time"
@@ -38,12 +39,17 @@ type XSpec struct {
 	Workers int
 }
 
+// PrunePrefix marks (as a prefix of the snapshot) a state whose successors
+// are not explored because the reference model leaves it unspecified.
+const PrunePrefix = "PRUNE:"
+
 // XResult is what Explore covered.
 type XResult struct {
 	States      uint64
 	Transitions uint64
 	MaxDepth    int
 	Closed      bool // the frontier became empty within Depth: reachable set is complete
+	Pruned      uint64
 }
 
 type xnode struct {
@@ -89,6 +95,7 @@ func (r *Run) Explore(x XSpec) XResult {
 	}
 
 	complete := true
+	pruned := uint64(0)
 	for depth := 1; depth <= x.Depth && len(frontier) > 0; depth++ {
 		type succ struct {
 			path []int
@@ -170,6 +177,12 @@ func (r *Run) Explore(x XSpec) XResult {
 				continue
 			}
 			seen[s.snap] = true
+			if strings.HasPrefix(s.snap, PrunePrefix) {
+				// a state the reference model leaves unspecified: counted, not expanded
+				pruned++
+				res.States++
+				continue
+			}
 			nf = append(nf, xnode{path: s.path, snap: s.snap})
 		}
 		if len(nf) > 0 {
@@ -182,6 +195,7 @@ func (r *Run) Explore(x XSpec) XResult {
 		res.States += uint64(len(nf))
 		frontier = nf
 	}
+	res.Pruned = pruned
 	res.Closed = complete && len(frontier) == 0
 	if !complete {
 		r.incomplete = true
